@@ -79,7 +79,7 @@ CHECKS = {
                 "Theorems (Props/C17.v): refused_iff_latest_request (after ANY history of connections, disconnect/ban requests, direct "
                 "additions and restarts, an address is turned away at instant now iff the latest ban request for it is permanent or "
                 "temporary with now before its expiry); kick_records_ban (30 minutes / unlimited / none by option, for the target's "
-                "address); ban_term_respected, permanent_ban_stands, expired_ban_admits; other_addresses_unaffected; "
+                "address); ban_term_respected, permanent_ban_stands, expired_ban_lets_in; other_addresses_unaffected; "
                 "refused_before_login (the outcome for a banned address is independent of the account table, never a login); "
                 "kick_closes_and_tells_others; protected_user_stays. Correspondence: histories on a real server over net.Pipe (admin, "
                 "users from 6 IPv4 addresses incl. prefix-similar ones, protected users): disconnect requests with every option value, "
